@@ -35,6 +35,13 @@ theorem gen_matches :
       ("ExecuteContext", "p.interp.ctxOps = 0"),        -- all four unconditional (no `conditional: ` prefix)
       ("checkContext", "p.ctxOps++"),
       ("checkContext", "p.ctxOps = 0")] ∧
+    C15Poll.entryReadsOfContextState = [] ∧
+    C15Poll.executeAllReturns = [
+      ("phase 1: return 0, ctxErr", "context-error"), ("phase 1: return 0, err", "after-context-check"),
+      ("phase 1: return p.exitStatus, nil", "no-error"),
+      ("phase 2: return 0, ctxErr", "context-error"), ("phase 2: return 0, err", "after-context-check"),
+      ("phase 3: return 0, ctxErr", "context-error"), ("phase 3: return 0, err", "after-context-check"),
+      ("phase 3: return p.exitStatus, nil", "no-error")] ∧
     C15Poll.pollCallSites = [
       ("executeAll", "checkContextNow"), ("executeAll", "checkContextNow"), ("executeAll", "checkContextNow"),
       ("checkContext", "checkContextNow"), ("execute", "checkContext")] := by decide
@@ -77,6 +84,22 @@ without the poll (plain `Execute`) makes. -/
 theorem never_cancelled (ds : List D) (c : Nat) :
     run N none ds 0 c ⟨0, 0⟩ = .finished (counterAfter N ds.length c) (runNoPoll ds ⟨0, 0⟩) :=
   never_cancelled_aux N ds 0 c ⟨0, 0⟩
+
+/-- **Error identity.** In every phase of `executeAll` (BEGIN, rules, END) a run that fails with a secondary error while
+its context is cancelled returns the context's error: each of the three raw-error returns of the regenerated table is
+immediately preceded by the context check, and no return is unguarded. -/
+theorem error_identity :
+    (∀ n ∈ [1, 2, 3], ∃ how, errorReturnOf n = some how ∧ returnedError how true true = .ctx) ∧
+    C15Poll.executeAllReturns.all (fun r => r.2 != "unguarded") = true := by decide
+
+/-- … and without a cancelled context the raw error is what is returned (the check is invisible) -/
+theorem error_identity_not_cancelled (how : String) (checkCtx : Bool) :
+    returnedError how checkCtx false = .other ∧ returnedError how false true = .other := by
+  simp [returnedError]
+
+/-- the entry code does not compare its argument with the stored context state: it reads none of the context fields
+(regenerated fact), and all its writes are unconditional (`gen_matches`: no `conditional: ` prefix) -/
+theorem entry_reads_no_stored_state : C15Poll.entryReadsOfContextState = [] := by decide
 
 /-- **ExecuteContext's entry code sets all context state from its argument**: nothing of what the previous call left
 (a cancelled or expired context, a half-way counter, checkCtx) survives. -/
